@@ -124,6 +124,9 @@ func c07Spec() *histSpec {
 				if x != y {
 					add(fmt.Sprintf("%s = %s", x, y), nil, c07S(zn.Assign{Target: X, Val: c07V(y)}))
 					add(fmt.Sprintf("%s之P = %s", x, y), nil, c07S(zn.Assign{Target: zn.Member{Root: X, Name: "P"}, Val: c07V(y)}))
+					// the two assignable list properties store a copy like every other target
+					add(fmt.Sprintf("%s之首项 = %s", x, y), nil, c07S(zn.Assign{Target: zn.Member{Root: X, Name: "首项"}, Val: c07V(y)}))
+					add(fmt.Sprintf("%s#1之末项 = %s", x, y), nil, c07S(zn.Assign{Target: zn.Member{Root: c07Idx(X, one), Name: "末项"}, Val: c07V(y)}))
 				}
 				add(fmt.Sprintf("%s#1 = %s", x, y), nil, c07S(zn.Assign{Target: c07Idx(X, one), Val: c07V(y)}))
 				add(fmt.Sprintf("%s#“K” = %s", x, y), nil, c07S(zn.Assign{Target: c07Idx(X, kk), Val: c07V(y)}))
@@ -296,12 +299,69 @@ func c07Literals(c *mc.Ctx, sp *histSpec) {
 	}
 }
 
+// c07Deep: a value nested d levels deep (built by a loop, lists or dictionaries inside one
+// another) is copied by declaration and by assignment; the innermost list is then changed
+// through the original by an index chain of length d, and read through all three names.
+func c07Deep(c *mc.Ctx, sp *histSpec, maxD int) {
+	one, zero := zn.Num{Lit: "1"}, zn.Num{Lit: "0"}
+	idx := int64(1 << 51)
+	for kind := 0; kind < 2; kind++ {
+		for d := 1; d <= maxD; d++ {
+			idx++
+			if !c.Mine(idx) {
+				continue
+			}
+			wrap := zn.Expr(zn.List{Items: []zn.Expr{c07V("L")}})
+			step := zn.Expr(one)
+			if kind == 1 {
+				wrap = zn.Dict{Pairs: []zn.DictPair{{Key: "K", Val: c07V("L")}}}
+				step = zn.Str{Val: "K"}
+			}
+			chain := func(name string) zn.Expr {
+				e := zn.Expr(c07V(name))
+				for i := 0; i < d; i++ {
+					e = c07Idx(e, step)
+				}
+				return e
+			}
+			show := func(es ...zn.Expr) zn.Stmt { return zn.ExprStmt{E: zn.Call{Name: "显示", Args: es}} }
+			body := []zn.Stmt{
+				zn.Decl{Pairs: []zn.DeclPair{{Names: []string{"L"}, Val: zn.List{Items: []zn.Expr{zero}}}}},
+				zn.Decl{Pairs: []zn.DeclPair{{Names: []string{"I"}, Val: zero}}},
+				zn.While{Cond: zn.Bin{Op: "<", L: c07V("I"), R: zn.Num{Lit: fmt.Sprint(d)}}, Body: []zn.Stmt{
+					zn.ExprStmt{E: zn.Assign{Target: c07V("L"), Val: wrap}},
+					zn.ExprStmt{E: zn.Assign{Target: c07V("I"), Val: zn.Bin{Op: "+", L: c07V("I"), R: one}}}}},
+				zn.Decl{Pairs: []zn.DeclPair{{Names: []string{"M"}, Val: c07V("L")}}},
+				zn.Decl{Pairs: []zn.DeclPair{{Names: []string{"P"}, Val: zn.List{}}}},
+				zn.ExprStmt{E: zn.Assign{Target: c07V("P"), Val: c07V("L")}},
+				zn.ExprStmt{E: c07M(chain("L"), "后增", zn.Num{Lit: "7"})},
+				show(zn.Member{Root: chain("L"), Name: "长度"}, zn.Member{Root: chain("M"), Name: "长度"}, zn.Member{Root: chain("P"), Name: "长度"}),
+				zn.ExprStmt{E: zn.Assign{Target: c07Idx(chain("M"), one), Val: zn.Num{Lit: "5"}}},
+				show(c07Idx(chain("L"), one), c07Idx(chain("M"), one), c07Idx(chain("P"), one)),
+			}
+			prog := &zn.Program{Body: body}
+			src := zn.Render(prog, nil)
+			c.Case(idx, func() json.RawMessage { return mc.J(histCase{Part: "deep", Source: src}) })
+			f, _, _, open := sp.compare("deep", prog, src, []string{fmt.Sprintf("nesting depth %d kind %d", d, kind)})
+			if open {
+				continue
+			}
+			c.Eval(true)
+			c.Stat("deep_value_programs", 1)
+			if f != nil {
+				c.Fail(*f)
+			}
+		}
+	}
+	c.Bound("deep_value_nesting", fmt.Sprintf("complete: every depth 1..%d, lists in lists and dictionaries in dictionaries", maxD))
+}
+
 func init() {
 	sp := c07Spec()
 	mc.Register(&mc.Check{
 		ID:    "C07",
 		Level: "model_checking",
-		Rule: "E2: breadth-first search over operation histories on names A B C starting from 5 initial values (nested list, dictionary of list, list of dictionary, object with a list property, object of a type whose constructor leaves the list property alone); operations: 令X = Y, 令X恒为Y, 令X恒为Y#1, 令X、Z恒为Y, 令X = 【Y，9】, X = 【Y，9】, X#“K” = 【K=Y】, 令X = Y之P, 令X = Y#1, 令X、Z = Y, X = Y, X之P = Y, X#1 = Y, X#“K” = Y, element / key / nested assignments, in-place 自增 of (nested) number items, X = 以Y（后增：n） and X = 以Y（读取：“K”） (assignment from a call that returns an existing collection), 后增 前增 左移 右移 移除 合并 at top and nested level, object methods and property writes; every successor is produced by re-running the whole history on a fresh real interpreter; all live names are observed structurally after every operation and compared with the reference (heap of trees, pointers only for objects); after every transition a probe battery mutates every container position reachable from every name and observes all names. States are merged on the reference state (values + object identity structure). Plus the literal-freshness programs: 5 literals (list, dictionary, nested list, a number, a list of a number) x 6 in-place changes x 9 contexts (bound in a method called twice, bound in a loop body, returned by a method and bound, returned and changed without being bound, one literal site executed three times with every value stored WITHOUT a copy - appended / passed to a method that appends it / returned by a method and appended - and one stored value changed after the loop or right after the first pass).",
+		Rule: "E2: breadth-first search over operation histories on names A B C starting from 5 initial values (nested list, dictionary of list, list of dictionary, object with a list property, object of a type whose constructor leaves the list property alone); operations: 令X = Y, 令X恒为Y, 令X恒为Y#1, 令X、Z恒为Y, 令X = 【Y，9】, X = 【Y，9】, X#“K” = 【K=Y】, 令X = Y之P, 令X = Y#1, 令X、Z = Y, X = Y, X之P = Y, X#1 = Y, X#“K” = Y, element / key / nested assignments, in-place 自增 of (nested) number items, X = 以Y（后增：n） and X = 以Y（读取：“K”） (assignment from a call that returns an existing collection), 后增 前增 左移 右移 移除 合并 at top and nested level, object methods and property writes; every successor is produced by re-running the whole history on a fresh real interpreter; all live names are observed structurally after every operation and compared with the reference (heap of trees, pointers only for objects); after every transition a probe battery mutates every container position reachable from every name and observes all names. States are merged on the reference state (values + object identity structure). Plus the literal-freshness programs: 5 literals (list, dictionary, nested list, a number, a list of a number) x 6 in-place changes x 9 contexts (bound in a method called twice, bound in a loop body, returned by a method and bound, returned and changed without being bound, one literal site executed three times with every value stored WITHOUT a copy - appended / passed to a method that appends it / returned by a method and appended - and one stored value changed after the loop or right after the first pass). Plus deep values: for every nesting depth d = 1..300 (1000 thorough), lists in lists and dictionaries in dictionaries built by a loop, copied by declaration and by assignment, the innermost list changed through the original (and an item through a copy) by an index chain of length d and read through all three names.",
 		Assumptions: []string{
 			"list/dictionary values passed as method arguments or bound by 得到 / loop variables are by-reference today and unspecified: method arguments are fresh scalars or literals only",
 			"histories are merged on the reference state only for generating successors; the probe battery (mutate through each name at each position, observe all) runs after every transition, also one that reaches a reference state seen before",
@@ -311,7 +371,7 @@ func init() {
 			if tier == "thorough" {
 				return 20 * time.Minute
 			}
-			return 100 * time.Second
+			return 240 * time.Second
 		},
 		Run: func(c *mc.Ctx) {
 			n := 4
@@ -320,6 +380,11 @@ func init() {
 			}
 			sp.explore(c, n)
 			c07Literals(c, sp)
+			if c.Tier == "thorough" {
+				c07Deep(c, sp, 1000)
+			} else {
+				c07Deep(c, sp, 300)
+			}
 		},
 		Replay: func(c *mc.Ctx, raw json.RawMessage) { sp.replay(c, raw) },
 	})
